@@ -66,7 +66,10 @@ CvTags ==
   \cup (IF hist /\ strict /\ n # last THEN {"C09:not-stable"} ELSE {})
   \cup (IF hist /\ ~okKeep /\ ~okFree /\ ~(strict /\ n # last) THEN {"C09:not-memoryless"} ELSE {})
   \cup (IF hist /\ ~edited /\ prevU # NoPrev /\ ~e.nan /\ ur >= prevU + TolU /\ n < last THEN {"C09:not-monotone"} ELSE {})
-  \cup C19Tags(n, e.sk, e.fq, e.fq, IF inrange THEN e.eu ELSE Min2(e.eu, e.ec), inrange, ~hist, hist /\ strict /\ n = last)
+  \* "kept by the hysteresis window": the previous note is reported although the memoryless rule
+  \* would not report it for this input (or the input is certainly inside the window)
+  \cup C19Tags(n, e.sk, e.fq, e.fq, IF inrange THEN e.eu ELSE Min2(e.eu, e.ec), inrange, ~hist,
+             hist /\ valid /\ n = last /\ (strict \/ ~(n >= 0 /\ n <= Top /\ Accept(allowed, uc, n))))
 
 TMeta == e.op = "meta" /\ UNCHANGED <<qVars, dead, prevU, edited>> /\ l' = l + 1
 
